@@ -266,7 +266,17 @@ func (db *DB) Update(fn func(*Tx) error) error {
 	return tx.commit()
 }
 
-func (db *DB) Batch(fn func(*Tx) error) error { return db.Update(fn) }
+// Batch: bbolt runs the function inside a (possibly shared) batch transaction;
+// when the function fails, the batch is rolled back and the failing function is
+// run again on its own with Update, whose result the caller gets. With a single
+// caller that is: run it, and on failure run it once more.
+func (db *DB) Batch(fn func(*Tx) error) error {
+	err := db.Update(fn)
+	if err != nil {
+		err = db.Update(fn)
+	}
+	return err
+}
 
 func (db *DB) View(fn func(*Tx) error) error {
 	tx, err := db.Begin(false)
